@@ -31,7 +31,7 @@ SPEC = {
              "combinations; plus corpus/mutant jobs for U4/U5; programs counts successful runs whose certificate was "
              "checked; non-trivial = successful run containing >= 1 instruction with candidates of different sizes and a "
              "pass trace with >= 2 unresolved passes; distinct = distinct (source, budget, switches)"),
-    "monitors": ["certificate", "u4-recheck", "u5-trace", "error-has-no-output"],
+    "monitors": ["unique-layout-value", "certificate", "u4-recheck", "u5-trace", "error-has-no-output"],
     "min_nontrivial": {"quick": 200, "thorough": 10000},
     "assumptions": ["spans are emitted in source order (labels, instructions, data elements)"],
 }
@@ -111,7 +111,7 @@ def shard(ctx):
             w = {"files": dict({"main.asm": src}, **prog.get("extra_files", {})), "roots": ["main.asm"], "std": False, "tag": "casc", "kind": "casc"}
         else:
             prog = None
-            w = workload.draw(rng, kinds=("corpus", "mut", "isa", "isamut", "macro"), weights=(2, 2, 2, 1, 4))
+            w = workload.draw(rng, kinds=("corpus", "mut", "isa", "isamut", "macro", "chain"), weights=(2, 2, 2, 1, 4, 3))
         budgets = rng.sample(BUDGET_POOL, 4 if prog else 2)
         if 10 not in budgets:
             budgets.append(10)
@@ -135,6 +135,19 @@ def shard(ctx):
                 continue
             u4(ctx, job, rec)
             u5(ctx, job, rec, b)
+            if w.get("expected_hex") is not None:
+                # padding chain: the one consistent layout is known in closed form
+                ctx.monitor("unique-layout-value")
+                if rec["out"]["hex"] != w["expected_hex"]:
+                    ctx.violation("certificate", {"kind": "not-the-unique-consistent-layout", "matcher_optimisation": mt,
+                                                  "blank_inside_a_rule_literal_run": False}, job,
+                                  {"bits": w["expected_hex"][:80]}, {"budget": b, "bits": rec["out"]["hex"][:80]})
+                else:
+                    ctx.count("chain-programs")
+                    ps = c09.passes_of(rec["trace"]) if rec.get("trace") else []
+                    if sum(1 for p in ps if p[3] == "U") >= 2:
+                        ctx.nontrivial_case(lib_digest(w, (b, st, mt)))
+                continue
             if prog is None:
                 ctx.count("model-free-success")
                 continue
